@@ -302,6 +302,13 @@ module Z =
                  | Zneg q -> Pos.eqb p q
                  | _ -> false)
 
+  (** val min : z -> z -> z **)
+
+  let min n m =
+    match compare n m with
+    | Gt -> m
+    | _ -> n
+
   (** val abs : z -> z **)
 
   let abs = function
@@ -320,6 +327,15 @@ module Z =
   | O -> Z0
   | S n0 -> Zpos (Pos.of_succ_nat n0)
  end
+
+(** val last : 'a1 list -> 'a1 -> 'a1 **)
+
+let rec last l d =
+  match l with
+  | [] -> d
+  | a :: l0 -> (match l0 with
+                | [] -> a
+                | _ :: _ -> last l0 d)
 
 (** val map : ('a1 -> 'a2) -> 'a1 list -> 'a2 list **)
 
@@ -605,13 +621,34 @@ let fill_body src n v st =
                set_cell st4 v i j (src (fill_src_args n1 n2 n3))
           else OOB) st3) st2))
 
+(** val resize_storage : 'a1 storage -> z -> z -> 'a1 storage **)
+
+let resize_storage st nv no =
+  { nvals = nv; noffs = no; dims = (fun v ->
+    if inb v (Z.min st.nvals nv) then st.dims v else (Z0, Z0)); offs =
+    (fun v -> if inb v (Z.min st.noffs no) then st.offs v else Z0); cells =
+    (fun v ->
+    if inb v (Z.min st.nvals nv) then st.cells v else (fun _ _ -> None)) }
+
+(** val fill_from :
+    (((z * z) * z) -> 'a1) -> 'a1 storage -> z -> 'a1 storage outcome **)
+
+let fill_from src st n =
+  if fill_is_empty n
+  then Done (resize_storage st Z0 Z0)
+  else loop_up (fuelN n) (fill_V_first n) (fill_V_cond n) (fill_body src n)
+         (resize_storage st (fill_nvalues n) (fill_noffsets n))
+
 (** val fill : (((z * z) * z) -> 'a1) -> z -> 'a1 storage outcome **)
 
 let fill src n =
-  if fill_is_empty n
-  then Done (empty_storage Z0 Z0)
-  else loop_up (fuelN n) (fill_V_first n) (fill_V_cond n) (fill_body src n)
-         (empty_storage (fill_nvalues n) (fill_noffsets n))
+  fill_from src (empty_storage Z0 Z0) n
+
+(** val refill : (((z * z) * z) -> 'a1) -> z list -> 'a1 storage outcome **)
+
+let refill src ns =
+  fold_left (fun acc n -> bind acc (fun st -> fill_from src st n)) ns (Done
+    (empty_storage Z0 Z0))
 
 (** val lookup :
     (((z * z) * z) -> 'a1) -> 'a1 storage -> z -> z -> z -> z -> 'a1 outcome **)
@@ -646,6 +683,12 @@ let fill_then_lookup src n n1 n2 n3 =
 
 let probe n n1 n2 n3 =
   fill_then_lookup (fun t -> t) n n1 n2 n3
+
+(** val probe_seq : z list -> z -> z -> z -> ((z * z) * z) outcome **)
+
+let probe_seq ns n1 n2 n3 =
+  bind (refill (fun t -> t) ns) (fun st ->
+    lookup (fun t -> t) st (last ns Z0) n1 n2 n3)
 
 (** val window_cells : z -> z **)
 
